@@ -535,17 +535,17 @@ class Rec:
 
 
 def plan(tier, seed):
-    shards = 12 if tier == "quick" else 64
+    shards = 8 if tier == "quick" else 64
     jobs = []
     for i in range(shards):
         jobs.append({"seed": seed, "shard": i, "nshards": shards,
-                     "pools": 4 if tier == "quick" else 32,
-                     "twoctx": 300 if tier == "quick" else 4000,
-                     "corpus_chunks": 40 if tier == "quick" else 400,
-                     "cse": 60 if tier == "quick" else 800})
+                     "pools": 3 if tier == "quick" else 32,
+                     "twoctx": 250 if tier == "quick" else 4000,
+                     "corpus_chunks": 30 if tier == "quick" else 400,
+                     "cse": 50 if tier == "quick" else 800})
     # one directed job: corpus-wide same-class groups (quick: every second chunk)
-    jobs.append({"seed": seed, "kind": "groups", "shard": seed % 2 if tier == "quick" else 0,
-                 "nshards": 2 if tier == "quick" else 1, "corpus_chunks": 100000})
+    jobs.append({"seed": seed, "kind": "groups", "shard": seed % 3 if tier == "quick" else 0,
+                 "nshards": 3 if tier == "quick" else 1, "corpus_chunks": 100000})
     return jobs
 
 
@@ -590,12 +590,12 @@ def finish(agg, tier):
     inc = []
     c = agg.counters
     q = tier == "quick"
-    for k, need in (("pairs_compared", 500000 if q else 2e7), ("equal_pairs", 2000 if q else 80000),
-                    ("nontrivial_pairs", 5000 if q else 200000), ("transitivity_triples", 1000 if q else 40000),
-                    ("twoctx_generated_texts", 1500 if q else 100000), ("twoctx_corpus_attr_pairs", 2500 if q else 10000),
-                    ("group_pairs_compared", 3000 if q else 6000), ("class_groups", 60 if q else 100),
+    for k, need in (("pairs_compared", 300000 if q else 2e7), ("equal_pairs", 1000 if q else 80000),
+                    ("nontrivial_pairs", 3000 if q else 200000), ("transitivity_triples", 1000 if q else 40000),
+                    ("twoctx_generated_texts", 800 if q else 100000), ("twoctx_corpus_attr_pairs", 800 if q else 10000),
+                    ("group_pairs_compared", 1500 if q else 6000), ("class_groups", 40 if q else 100),
                     ("cse_uses_checked", 2000 if q else 100000), ("cse_ops_merged", 200 if q else 5000),
-                    ("corpus_distinct_attrs_harvested", 500), ("lookups_through_equal_copy", 500 if q else 20000)):
+                    ("corpus_distinct_attrs_harvested", 500), ("lookups_through_equal_copy", 200 if q else 20000)):
         if c.get(k, 0) < need:
             inc.append(f"{k}={c.get(k, 0)} < {int(need)}")
     return {"inconclusive": inc, "coverage": {"pool_classes": len(agg.sets.get("pool_classes", ()))}}
